@@ -5,6 +5,8 @@ mod api;
 mod termconf;
 mod show;
 mod est;
+mod formats;
+mod adaptors;
 
 use std::io::{BufRead, BufWriter, Write};
 
@@ -57,6 +59,8 @@ fn main() {
                 est::run_history(&hist, &mut out);
             }
         }
+        "formats" => { let seed = args.get(4).and_then(|s| s.parse().ok()).unwrap_or(1); for line in input.lines() { let line = line.unwrap(); if line.trim().is_empty() { continue; } formats::run_history(&serde_json::from_str(&line).expect("bad history json"), &mut out, seed); } }
+        "adaptors" => { for line in input.lines() { let line = line.unwrap(); if line.trim().is_empty() { continue; } adaptors::run_history(&serde_json::from_str(&line).expect("bad history json"), &mut out); } }
         "show" => {
             clock::enable();
             for line in input.lines() {
